@@ -56,6 +56,7 @@ type FuncContract struct {
 	StoreUse    map[string][]*CExpr      // "field#n" -> lemma instances assumed at that store
 	StoreGhost  map[string][]GhostUpdate // "field#n" -> ghost updates at that store (evaluated before it)
 	StoreSites  map[string][]string // field name -> the only operations whose result may be stored into that field ("append", callee keys)
+	CallUse     map[string][]*CExpr      // callsite X: use LEMMA(args): lemma instances assumed after the call ($result, $0...)
 	CallGhost   map[string][]GhostUpdate // callsite SIG: ghost NAME = EXPR: updates after a call through a function value ($result)
 	SafetyOff   map[string]string   // safety class -> reason (not claimed)
 	InlineCalls []string            // callees to inline here even though they have a contract
@@ -489,6 +490,18 @@ func (cs *Contracts) parseFunc(pkg, file string, e *rawEntry) error {
 		case "callsite":
 			// callsite <signature>: requires[label] EXPR
 			rest := strings.TrimSpace(strings.TrimPrefix(c.text, "callsite"))
+			if j := strings.Index(rest, ": use "); j >= 0 {
+				sig := strings.TrimSpace(rest[:j])
+				ex, err := parseCExpr(strings.TrimSpace(rest[j+len(": use "):]))
+				if err != nil {
+					return fmt.Errorf("line %d: %v", c.line, err)
+				}
+				if fc.CallUse == nil {
+					fc.CallUse = map[string][]*CExpr{}
+				}
+				fc.CallUse[sig] = append(fc.CallUse[sig], ex)
+				continue
+			}
 			if j := strings.Index(rest, ": ghost "); j >= 0 {
 				sig := strings.TrimSpace(rest[:j])
 				g := strings.TrimSpace(rest[j+len(": ghost "):])
